@@ -75,3 +75,8 @@ func (s *StateMachine) VerifSlashTrackerDigest() string {
 	sort.Strings(rows)
 	return strings.Join(rows, ",")
 }
+
+// VerifDropKnownDoubleSigners exposes the filter HandleByzantine applies to the slash list of the chain's own certificate
+func (s *StateMachine) VerifDropKnownDoubleSigners(ds []*lib.DoubleSigner) ([]*lib.DoubleSigner, lib.ErrorI) {
+	return s.dropKnownDoubleSigners(ds)
+}
